@@ -87,6 +87,7 @@ func (c *reconnectClient) Connect(ctx context.Context, clientID string, opts ...
 		for {
 			if baseCli, err := c.dialer.DialContext(ctx); err == nil {
 				c.RetryClient.SetClient(ctx, baseCli)
+				verifPoint("reconnect:client-set", c.RetryClient)
 
 				ctxConnect, cancelConnect := c.options.timeoutContext(ctx)
 
@@ -100,9 +101,11 @@ func (c *reconnectClient) Connect(ctx context.Context, clientID string, opts ...
 						close(done)
 					})
 
+					verifPoint("reconnect:connected", c.RetryClient)
 					if initialized && (!sessionPresent || c.options.AlwaysResubscribe) {
 						c.RetryClient.Resubscribe(ctx)
 					}
+					verifPoint("reconnect:resubscribed", c.RetryClient)
 					c.RetryClient.Retry(ctx)
 					initialized = true
 					verifPoint("reconnect:tasks-pushed", c.RetryClient)
